@@ -213,8 +213,10 @@ func ruleOptFlow(rule string) RuleFn {
 				f := strings.ReplaceAll(ft.S, "new:opts", "p:opts")
 				return f == "(len(p:opts.As) <= 0)" || f == "!(len(p:opts.As) > 0)" || f == "(len(p:opts.As) == 0)" || f == "!(len(p:opts.As) != 0)" || f == "(p:opts.As == nil)"
 			})
-			if os.Getenv("VERIF_DEBUG_FACTS") != "" {
-				an.EdgesWhere(fn, func(ft an.Fact) bool { fmt.Fprintln(os.Stderr, "fact:", ft.S); return false })
+			if nm := os.Getenv("VERIF_DEBUG_FACTS"); nm != "" {
+				if dfn := c.P.Func(nm); dfn != nil {
+					an.EdgesWhere(dfn, func(ft an.Fact) bool { fmt.Fprintln(os.Stderr, "fact:", ft.S); return false })
+				}
 			}
 			gates := an.NewGates().AddEdges(noAs...)
 			var builders []ssa.CallInstruction
